@@ -11,7 +11,8 @@ RULE = ('cases = dumps of 1-3 resources x 0-N rows (N = 4 quick, 40 thorough) in
         'makedirs, destination open / each copy chunk / close, unlink; copies are chunked so a kill can leave any chunk '
         'prefix); exhaustive over operation indices per case; non-trivial = kill strictly inside the dump; '
         'distinct = (shape, format, kill point)'
-        '; round 4: also counters switched off one kind at a time and resource paths with sub-directories, spaces and a backslash')
+        '; round 4: also counters switched off one kind at a time and resource paths with sub-directories, spaces and a backslash'
+        '; round 9: hidden files and directories (leading dots), a file name longer than the file system allows')
 TRUSTED = ['Coq 8.16.1 kernel + vm_compute', 'harness/p19.py fault injector (wraps tempfile / shutil.copy / os in the dumper modules\' namespaces of the child) and oracle',
            'a proper prefix of the JSON text of a descriptor is not parseable (checked by the harness on every real descriptor with json.loads on all prefixes)',
            'data handed to the OS by write on the destination survives a process kill']
